@@ -37,7 +37,7 @@ from markupsafe import Markup
 from vt.gen.expr import print_expr
 
 __all__ = ["print_body", "units", "lift", "guard", "GuardError", "templates", "walk_exprs", "body_labels", "regions",
-           "const_value", "COUNT_ARGS"]
+           "const_value", "COUNT_ARGS", "sliceable", "slice_hazard", "strict_hazard", "map_body_exprs", "map_children"]
 
 VARS = ("v0", "v1", "v2", "v3")
 MACROS = ("m0", "m1")
@@ -384,7 +384,21 @@ def is_numeric(node, numeric_names):
     return False
 
 
+_LAZY_FILTERS = {"reverse", "map", "select", "reject", "unique", "batch", "slice", "items", "selectattr", "rejectattr", "groupby"}
+_CONSUMERS = {"list", "join", "sort", "length", "count", "first", "sum", "min", "max"}
+
+
+def _check_lazy(node, parent):
+    """The text of an iterator shows a memory address: a lazily evaluated filter result is always consumed."""
+    if node[0] == "filter" and node[1] in _LAZY_FILTERS:
+        if not (parent is not None and parent[0] == "filter" and parent[1] in _CONSUMERS and parent[2] is node):
+            raise GuardError("iterator-valued filter %r is not consumed by list/join/..." % (node[1],))
+    for ch in expr_children(node):
+        _check_lazy(ch, node)
+
+
 def _check_expr(e, numeric_names):
+    _check_lazy(e, None)
     for n in walk_expr(e):
         k = n[0]
         if k == "bin" and n[1] == "*":
@@ -486,6 +500,85 @@ def _guard_body(body, numeric, conditional):
 def guard(body):
     """Raises GuardError when the body could make the engine compute something big (never executed: F19)."""
     _guard_body(body, set(), False)
+
+
+# ---------------------------------------------------------------------------------------------------------------------
+# input classes of listed findings (syntactic, never asking the implementation)
+
+_SEQ_FILTERS = {"string", "list", "upper", "lower", "capitalize", "title", "trim", "striptags", "safe", "e", "escape",
+                "forceescape", "urlencode", "tojson", "urlize", "join", "sort", "replace", "center", "truncate", "indent",
+                "wordwrap", "format", "filesizeformat", "xmlattr", "dictsort"}
+
+
+def has_name(node):
+    return any(n[0] in ("name", "call") for n in walk_expr(node))
+
+
+def sliceable(node):
+    """Conservative: the value is a str / list / tuple, or evaluating it raises, or it is never folded."""
+    k = node[0]
+    if k == "const":
+        return isinstance(node[1], str)
+    if k in ("list", "tuple", "concat", "name", "call"):
+        return True
+    if k == "paren":
+        return sliceable(node[1])
+    if k == "filter":
+        return node[1] in _SEQ_FILTERS
+    if k == "bin" and node[1] == "+":
+        return sliceable(node[2]) and sliceable(node[3])
+    if k == "bin" and node[1] == "*":
+        return sliceable(node[2]) or sliceable(node[3])
+    if k == "bin" and node[1] == "%":
+        return sliceable(node[2])
+    if k in ("and", "or"):
+        return sliceable(node[1]) and sliceable(node[2])
+    if k == "cond":
+        return node[3] is not None and sliceable(node[2]) and sliceable(node[3])
+    if k == "slice":
+        return sliceable(node[1])
+    return False
+
+
+def slice_hazard_expr(e):
+    """a slice of a constant that is not a sequence: folded through environment.getitem (undefined), raises at run time"""
+    return any(n[0] == "slice" and not sliceable(n[1]) for n in walk_expr(e))
+
+
+def slice_hazard(body):
+    return any(slice_hazard_expr(e) for e in walk_exprs(body))
+
+
+_LOOKUP_FILTERS = {"first", "last", "min", "max", "attr", "random"}
+
+
+def _may_be_undefined_const(node):
+    return any(n[0] in ("item", "attr", "slice") or (n[0] == "filter" and n[1] in _LOOKUP_FILTERS) for n in walk_expr(node))
+
+
+def strict_hazard_expr(e):
+    """an operand of ~ / a tested operand of and, or, a conditional expression that may be a constant undefined: with
+    StrictUndefined the optimizer raises UndefinedError while the template is loaded"""
+    for n in walk_expr(e):
+        k = n[0]
+        if k == "concat":
+            probe = n[1]
+        elif k in ("and", "or"):
+            probe = [n[1]]
+        elif k == "cond":
+            probe = [n[1]]
+        else:
+            continue
+        if any(_may_be_undefined_const(x) for x in probe):
+            return True
+    return False
+
+
+def strict_hazard(body):
+    if any(strict_hazard_expr(e) for e in walk_exprs(body)):
+        return True
+    # MarkSafe / MarkSafeIfAutoescape build Markup(value) at compile time when they sit below a folded operator
+    return any(s[0] == "msafe" and s[3] is not None and _may_be_undefined_const(s[2]) for s in walk_stmts(body))
 
 
 # ---------------------------------------------------------------------------------------------------------------------
@@ -713,7 +806,10 @@ def _templates(max_depth, max_stmts, nlifts):
             if k == "concat":
                 return ["concat", [g(pick(["str", "str", "markup", "int", "any", "str"]), d - 1, scope) for _ in range(draw(I(2, 3)))]]
             if k == "f0":
-                return ["filter", pick(STR_FILTERS0), g(pick(["str", "str", "str", "any"]), d - 1, scope), [], []]
+                f = pick(STR_FILTERS0)
+                node = ["filter", f, g(pick(["str", "str", "str", "any"]), d - 1, scope), [], []]
+                # reverse of a non-string is an iterator (its text shows an address): always consumed by join
+                return ["filter", "join", node, [], []] if f == "reverse" else node
             if k == "fargs":
                 f = pick(["replace", "replace", "center", "truncate", "indent", "wordwrap", "trim", "format", "filesizeformat", "batch"])
                 obj = g("str", d - 1, scope)
@@ -840,7 +936,7 @@ def _templates(max_depth, max_stmts, nlifts):
             if k == "listf":
                 return ["filter", "list", g(pick(["list", "str", "dict"]), d - 1, scope), [], []]
             if k == "reverse":
-                return ["filter", "list", ["filter", "reverse", g(pick(["list", "str"]), d - 1, scope), [], []], [], []]
+                return ["filter", "list", ["filter", "reverse", g("list", d - 1, scope), [], []], [], []]
             if k == "slice":
                 return ["slice", g("list", d - 1, scope), c(draw(I(0, 2))) if chance(60) else None, c(draw(I(0, 4))) if chance(50) else None, None]
             if k == "range":
